@@ -119,6 +119,8 @@ def call_app(app, environ, *, stop_after=None, on_event=None):
     try:
         result = app(environ, start_response)
     except BaseException as e:   # noqa
+        if type(e).__name__ == 'RunTimeout':
+            raise        # the harness' own watchdog, not an exception of the application
         r.escaped = e
     else:
         r.result_type = type(result).__name__
@@ -150,6 +152,8 @@ def call_app(app, environ, *, stop_after=None, on_event=None):
                                 r.stopped_early = True
                                 break
                 except BaseException as e:   # noqa
+                    if type(e).__name__ == 'RunTimeout':
+                        raise
                     r.iter_error = e
             close = getattr(result, 'close', None)
             if close is not None:
